@@ -213,6 +213,23 @@ pub fn take_panics() -> Vec<(String, String)> {
     mine
 }
 
+/// Take the panics recorded on any thread since `since` entries ago (for scenarios that run their
+/// own multi-threaded runtime, whose worker threads are not the scenario thread).
+pub fn take_panics_of_threads(threads: &[ThreadId]) -> Vec<(String, String)> {
+    let mut panics = PANICS.lock().unwrap();
+    let mut out = Vec::new();
+    let mut i = 0;
+    while i < panics.len() {
+        if threads.contains(&panics[i].thread) {
+            let p = panics.remove(i);
+            out.push((p.location, p.message));
+        } else {
+            i += 1;
+        }
+    }
+    out
+}
+
 /// A panic location inside this harness (as opposed to btdht or a library it uses).
 pub fn is_harness_location(loc: &str) -> bool {
     loc.starts_with("src/") || loc.contains("/verif/harness/")
